@@ -16,11 +16,18 @@
       before (whole mutual block: comprehension / lambda / nested def push and pop, the custom
       analysers, `visit_ReturnValue`, the assignment diversions) — for a non-empty chain, which is
       what `analyse` provides (`C17_analyse_restores_depth`);
-    * `C17_attr_store_registers_base` / `C17_attr_del_removes_base`: `unravel_names` yields the BASE
-      name of an attribute / item target — the root of two defect classes.
-  `C17_full` (the per-construct clauses of the property this model can express) is false:
-  `C17_full_false`, with one `C17_cex_*` per known-finding class, each a kernel evaluation of
-  `FnA.analyse` on a minimal body.
+    * `del` (since fix adebbdf: visit first, then unbind by FULL name): `C17_del_statement_no_warning`,
+      `C17_must_warn_after_del`, `C17_del_then_use` (nothing on the `del` statement, exactly one
+      warning on the later use), `C17_attr_del_keeps_base` / `C17_item_del_keeps_base`,
+      `C17_del_attr_statement`, `C17_del_attr_then_use` (`del p.attr; p.after` never warns);
+      the two `del` clauses of `C17_full` now hold (`C17_clause_del_statement_holds`,
+      `C17_clause_attr_del_holds`);
+    * `C17_attr_store_registers_base`: `unravel_names` yields the BASE name of an attribute / item
+      STORE target — the root of the remaining missing-warning defect classes.
+  `C17_full` (the per-construct clauses of the property this model can express) is still false:
+  `C17_full_false` (from the attribute-store clause; also walrus-in-comprehension and
+  rebound-by-the-same-statement), with one `C17_cex_*` per remaining known-finding class, each a
+  kernel evaluation of `FnA.analyse` on a minimal body.
 -/
 import RattrProofs.Lemmas.VisitCtx
 
@@ -104,10 +111,9 @@ theorem C17_params_bound (env : Env) (mn : Str) (root : Context) (ps : Params) (
 theorem C17_root_names_bound (root : Context) (ps : Params) (x : Str)
     (h : Context.contains root x = true) :
     Context.contains (addArguments { ctx := Context.push root } ps).ctx x = true := by
-  rw [addArguments_ctx]
-  exact Context.contains_addNames_mono _ _ x (by simpa using h)
+  exact addArguments_contains_mono _ ps x (by simpa using h)
 
-/-! ### `unravel_names`: what a target registers / a `del` removes -/
+/-! ### `unravel_names` (base names: what a target registers) and `unravelFullNames` (what a `del` removes) -/
 
 theorem unravelNames_name (x : Str) (c : ECtx) : unravelNames (.name x c) = .ok [x] := by
   simp [unravelNames, Node.isNameable, namesOf]
@@ -139,14 +145,44 @@ theorem C17_attr_store_registers_base (s : St) (p a : Str) (c : ECtx) :
   simp only [addIdentifiers, C17_attr_target_unravels_to_base]
   exact ⟨_, rfl, Context.contains_add _ _, rfl⟩
 
-/-- defect root (spurious-warning class): `del p.attr` REMOVES `p` from the innermost scope. -/
-theorem C17_attr_del_removes_base (s : St) (p a : Str) (c : ECtx) :
-    removeIdentifiers s (.attr (.name p c) a .del) = .ok { s with ctx := Context.remove s.ctx p } := by
-  simp [removeIdentifiers, C17_attr_target_unravels_to_base]
+/-! #### `del` removes by FULL name (fix adebbdf) -/
 
-/-- … so a parameter `p` (bound once in the function's own scope, not visible outside) is no
-longer in the context after `del p.attr`. -/
-theorem C17_attr_del_unbinds_param (sc : Scope) (r : Context) (p : Str)
+theorem unravelFullNames_name (x : Str) (c : ECtx) : unravelFullNames (.name x c) = .ok [x] := by
+  simp [unravelFullNames, Node.isNameable, namesOf]
+
+/-- for `del x.a` it is the full name `x.a` that is yielded … -/
+theorem C17_attr_del_target_full_name (x a : Str) (c c' : ECtx) :
+    unravelFullNames (.attr (.name x c) a c') = .ok [x ++ '.' :: a] := by
+  simp [unravelFullNames, Node.isNameable, namesOf]
+
+/-- … and `x[]` for `del x[i]`. -/
+theorem C17_item_del_target_full_name (x : Str) (i : Node) (c c' : ECtx) :
+    unravelFullNames (.sub (.name x c) i c') = .ok [x ++ lit "[]"] := by
+  simp [unravelFullNames, Node.isNameable, namesOf]
+
+theorem append_cons_ne_self (p : Str) (ch : Char) (a : Str) : p ++ ch :: a ≠ p := by
+  intro e
+  have := congrArg List.length e
+  simp at this
+
+/-- `del p.attr` never unbinds `p`: what `p` resolves to is unchanged. -/
+theorem C17_attr_del_keeps_base (s : St) (p a : Str) (c : ECtx) :
+    ∃ s', removeIdentifiers s (.attr (.name p c) a .del) = .ok s' ∧
+      Context.get? s'.ctx p = Context.get? s.ctx p ∧ s'.diags = s.diags := by
+  simp only [removeIdentifiers, C17_attr_del_target_full_name]
+  refine ⟨_, rfl, ?_, rfl⟩
+  exact Context.get?_remove_other s.ctx _ p (append_cons_ne_self p '.' a)
+
+/-- `del p[i]` never unbinds `p`. -/
+theorem C17_item_del_keeps_base (s : St) (p : Str) (i : Node) (c : ECtx) :
+    ∃ s', removeIdentifiers s (.sub (.name p c) i .del) = .ok s' ∧
+      Context.get? s'.ctx p = Context.get? s.ctx p ∧ s'.diags = s.diags := by
+  simp only [removeIdentifiers, C17_item_del_target_full_name]
+  refine ⟨_, rfl, ?_, rfl⟩
+  exact Context.get?_remove_other s.ctx _ p (append_cons_ne_self p '[' [']'])
+
+/-- removing a local (bound once in the innermost scope, not visible outside) makes it invisible. -/
+theorem C17_remove_unbinds_local (sc : Scope) (r : Context) (p : Str)
     (hnd : (Dict.keys sc).Nodup) (hout : Context.contains r p = false) :
     Context.contains (Context.remove (sc :: r) p) p = false := by
   unfold Context.contains at *
@@ -371,7 +407,48 @@ theorem C17_analyse_restores_depth (env : Env) (mn : Str) (root : Context) (ps :
 
 theorem C17_del_removes_name (s : St) (x : Str) (c : ECtx) :
     removeIdentifiers s (.name x c) = .ok { s with ctx := Context.remove s.ctx x } := by
-  simp [removeIdentifiers, unravelNames_name]
+  simp [removeIdentifiers, unravelFullNames_name]
+
+/-- `del x` of a visible name: the target is visited FIRST (while `x` is still bound), so the
+statement itself emits no diagnostic; afterwards `x` is removed from the innermost scope. -/
+theorem C17_del_statement_no_warning (env : Env) (mn : Str) (x : Str) (s : St)
+    (hb : Context.contains s.ctx x = true) :
+    ∃ s', visit env mn (.delete [.name x .del]) s = .ok s' ∧ s'.diags = s.diags ∧
+      s'.ctx = Context.remove s.ctx x := by
+  obtain ⟨s1, h1, hd, hc⟩ := C17_no_warning_name env mn x .del s hb
+  rw [visit.eq_def]
+  simp only [visitList, h1, FnA.bind, removeIdentifiersL, C17_del_removes_name]
+  exact ⟨_, rfl, hd, by simp [hc]⟩
+
+/-- `del p.attr`: no diagnostic, and `p` resolves afterwards exactly as before. -/
+theorem C17_del_attr_statement (env : Env) (mn : Str) (p a : Str) (c : ECtx) (s : St)
+    (hb : Context.contains s.ctx p = true) :
+    ∃ s', visit env mn (.delete [.attr (.name p c) a .del]) s = .ok s' ∧ s'.diags = s.diags ∧
+      Context.get? s'.ctx p = Context.get? s.ctx p := by
+  obtain ⟨s1, h1, hd, hc⟩ := C17_no_warning_attr env mn (.name p c) a .del s p (p ++ '.' :: a) rfl
+    (by simp [namesOf]) hb
+  obtain ⟨s2, h2, hg, hd2⟩ := C17_attr_del_keeps_base s1 p a c
+  rw [visit.eq_def]
+  simp only [visitList, h1, FnA.bind, removeIdentifiersL, h2]
+  exact ⟨_, rfl, by rw [hd2, hd], by rw [hg, hc]⟩
+
+/-- `del p[i]` with a constant index: no diagnostic, `p` stays bound. -/
+theorem C17_del_item_statement (env : Env) (mn : Str) (p : Str) (c : ECtx) (s : St)
+    (hb : Context.contains s.ctx p = true) :
+    ∃ s', visit env mn (.delete [.sub (.name p c) .const .del]) s = .ok s' ∧ s'.diags = s.diags ∧
+      Context.get? s'.ctx p = Context.get? s.ctx p := by
+  have hv : ∃ s1, visit env mn (.sub (.name p c) .const .del) s = .ok s1 ∧ s1.diags = s.diags ∧
+      s1.ctx = s.ctx := by
+    rw [visit.eq_def]
+    simp only []
+    rw [C17_no_warning_when_bound s _ .del _ p (p ++ lit "[]") (by simp [namesOf]) hb]
+    simp only [Node.isNameable, Bool.not_true, Bool.false_eq_true, if_false, FnA.bind]
+    exact ⟨_, rfl, rfl, rfl⟩
+  obtain ⟨s1, h1, hd, hc⟩ := hv
+  obtain ⟨s2, h2, hg, hd2⟩ := C17_item_del_keeps_base s1 p .const c
+  rw [visit.eq_def]
+  simp only [visitList, h1, FnA.bind, removeIdentifiersL, h2]
+  exact ⟨_, rfl, by rw [hd2, hd], by rw [hg, hc]⟩
 
 /-- must-warn after `del x`: for a local `x` (bound once in the function's scope, not visible at
 module level) the name is out of the context after the removal, so — by
@@ -383,7 +460,33 @@ theorem C17_must_warn_after_del (env : Env) (mn : Str) (sc : Scope) (r : Context
     ∃ s', visit env mn (.name x .load) s = .ok s' ∧ s'.diags = s.diags ++ [undefinedWarning x] ∧
       s'.ctx = s.ctx :=
   C17_warns_when_unbound env mn x .load s (by simp)
-    (by rw [hctx]; exact C17_attr_del_unbinds_param sc r x hnd hout) hat
+    (by rw [hctx]; exact C17_remove_unbinds_local sc r x hnd hout) hat
+
+/-- the two halves together: `del x; x` for a local `x` — nothing on the `del` statement, exactly
+one `undefined x` warning on the use. -/
+theorem C17_del_then_use (env : Env) (mn : Str) (sc : Scope) (r : Context) (x : Str) (s : St)
+    (hctx : s.ctx = sc :: r) (hb : Context.contains s.ctx x = true)
+    (hnd : (Dict.keys sc).Nodup) (hout : Context.contains r x = false)
+    (hat : startsWith x ['@'] = false) :
+    ∃ s', visitList env mn [.delete [.name x .del], .name x .load] s = .ok s' ∧
+      s'.diags = s.diags ++ [undefinedWarning x] := by
+  obtain ⟨s1, h1, hd1, hc1⟩ := C17_del_statement_no_warning env mn x s hb
+  obtain ⟨s2, h2, hd2, _⟩ := C17_must_warn_after_del env mn sc r x s1 (by rw [hc1, hctx]) hnd hout hat
+  simp only [visitList, h1, h2, FnA.bind]
+  exact ⟨_, rfl, by rw [hd2, hd1]⟩
+
+/-- `del p.attr; p.after` — no warning at all: the base variable is still defined. -/
+theorem C17_del_attr_then_use (env : Env) (mn : Str) (p a b : Str) (s : St)
+    (hb : Context.contains s.ctx p = true) :
+    ∃ s', visitList env mn [.delete [.attr (.name p .load) a .del], .attr (.name p .load) b .load] s
+        = .ok s' ∧ s'.diags = s.diags := by
+  obtain ⟨s1, h1, hd1, hg1⟩ := C17_del_attr_statement env mn p a .load s hb
+  have hb1 : Context.contains s1.ctx p = true := by
+    unfold Context.contains at *; rw [hg1]; exact hb
+  obtain ⟨s2, h2, hd2, _⟩ := C17_no_warning_attr env mn (.name p .load) b .load s1 p (p ++ '.' :: b) rfl
+    (by simp [namesOf]) hb1
+  simp only [visitList, h1, h2, FnA.bind]
+  exact ⟨_, rfl, by rw [hd2, hd1]⟩
 
 /-! ### the full statement over this model, and why it is false -/
 
@@ -430,7 +533,9 @@ def C17_clause_rhs_before_target : Prop :=
     warned (visit env mn (.augAssign (.name x .store) (ld x)) { ctx := c }) x = true
 
 /-- what the visitor's bookkeeping would have to satisfy for the property to hold on the
-constructs this model can express (the except-handler / match-capture names are not even part of
+constructs this model can express; the first two clauses hold since fix adebbdf
+(`C17_clause_del_statement_holds`, `C17_clause_attr_del_holds`), the other three are refuted (the
+except-handler / match-capture names are not even part of
 the visited tree: see `C17_cex_except_handler`, `C17_cex_match_capture`). -/
 def C17_full : Prop :=
   C17_clause_del_statement ∧ C17_clause_attr_del ∧ C17_clause_attr_store ∧
@@ -453,14 +558,20 @@ def undefs : Res → Option (List Str)
 def run (ps : List String) (body : List Node) : Option (List Str) :=
   undefs (analyse env1 [] root1 (P ps) body)
 
-/-- `def w(a): x = a.v; del x` — warns about `x` ON the `del` statement (removal precedes the visit). -/
-theorem C17_cex_del_statement_itself :
+/-- TEST (formerly a defect, repaired by adebbdf): `def w(a): x = a.v; del x` — no warning on the
+`del` statement. -/
+theorem C17_test_del_statement_no_warning :
     run ["a"] [.assign [.name (S "x") .store] (at' "a" "v"), .delete [.name (S "x") .del]]
-      = some [S "x"] := by decide +kernel
+      = some [] := by decide +kernel
 
-/-- `def w(p): del p.t; p.u` — `p` is removed by `del p.t`: two warnings about the parameter. -/
-theorem C17_cex_del_attribute_undefines_base :
-    run ["p"] [.delete [at' "p" "t" .del], at' "p" "u"] = some [S "p", S "p"] := by decide +kernel
+/-- TEST (formerly a defect, repaired by adebbdf): `def w(p): del p.t; p.u` — `p` stays defined. -/
+theorem C17_test_del_attribute_keeps_base :
+    run ["p"] [.delete [at' "p" "t" .del], at' "p" "u"] = some [] := by decide +kernel
+
+/-- TEST: `def w(a): x = a.v; del x; x.t` — the use after `del` warns, exactly once. -/
+theorem C17_test_use_after_del_warns :
+    run ["a"] [.assign [.name (S "x") .store] (at' "a" "v"), .delete [.name (S "x") .del], at' "x" "t"]
+      = some [S "x"] := by decide +kernel
 
 /-- `try: a.x` / `except K as e: e.g` — the handler's name is a `str` field, not a child node, and
 there is no `visit_ExceptHandler`: `e` is never registered. -/
@@ -486,20 +597,19 @@ the base name before the target was visited, and a store never warns. -/
 theorem C17_cex_attr_store_defines_base :
     run ["a"] [.assign [at' "n" "t" .store] (ld (S "a")), at' "n" "u"] = some [] := by decide +kernel
 
-/-- `def w(a, b): del b; b.s = a; b.t` — after `del b` the attribute store re-registers `b`: only
-the (spurious) warning of the `del` statement, none for the later uses. -/
+/-- `def w(a, b): del b; b.s = a; b.t` — after `del b` the attribute store re-registers `b`: NO
+warning, although `b` is unbound when `b.s = a` and `b.t` run. -/
 theorem C17_cex_attr_store_rebinds_after_del :
     run ["a", "b"] [.delete [.name (S "b") .del], .assign [at' "b" "s" .store] (ld (S "a")), at' "b" "t"]
-      = some [S "b"] := by decide +kernel
+      = some [] := by decide +kernel
 
 /-- `def w(x): del x; x -= f(x)` — the target of the augmented assignment is registered BEFORE the
-right-hand side is visited: the run has exactly the warnings of `del x` alone; the loads of the
-unbound `x` in `x -= f(x)` add none. -/
+right-hand side is visited: the loads of the unbound `x` in `x -= f(x)` are not diagnosed (compare
+`C17_test_use_after_del_warns`). -/
 theorem C17_cex_rebound_by_same_statement :
     run ["x"] [.delete [.name (S "x") .del],
                .augAssign (.name (S "x") .store) (.call (ld (S "f")) [ld (S "x")] [] [])]
-      = run ["x"] [.delete [.name (S "x") .del]] ∧
-    run ["x"] [.delete [.name (S "x") .del]] = some [S "x"] := by decide +kernel
+      = some [] := by decide +kernel
 
 /-- TEST (sanity of the machinery, one concrete run): a name bound nowhere is warned about once;
 parameters, module-level names and earlier assignments are not. -/
@@ -507,15 +617,23 @@ theorem C17_test_basic :
     run ["a"] [at' "q" "t", at' "a" "t", .assign [.name (S "x") .store] (ld (S "K")), at' "x" "t",
                .call (ld (S "f")) [ld (S "a")] [] []] = some [S "q"] := by decide +kernel
 
-theorem C17_clause_del_statement_false : ¬ C17_clause_del_statement := by
-  intro h
-  have := h env1 [] root1 (P ["x"]) (S "x") (by decide)
-  revert this; decide +kernel
+/-- holds since fix adebbdf (visit first, then unbind) — for every parameter list and root. -/
+theorem C17_clause_del_statement_holds : C17_clause_del_statement := by
+  intro env mn root ps x hx
+  have hb := addArguments_contains { ctx := Context.push root } ps x hx
+  obtain ⟨s', h, hd, _⟩ := C17_del_statement_no_warning env mn x _ hb
+  unfold analyse
+  simp only [visitList, h, FnA.bind, warned, diagsOf, hd]
+  rfl
 
-theorem C17_clause_attr_del_false : ¬ C17_clause_attr_del := by
-  intro h
-  have := h env1 [] root1 (P ["p"]) (S "p") (S "t") (S "u") (by decide)
-  revert this; decide +kernel
+/-- holds since fix adebbdf (removal by full name). -/
+theorem C17_clause_attr_del_holds : C17_clause_attr_del := by
+  intro env mn root ps p a b hp
+  have hb := addArguments_contains { ctx := Context.push root } ps p hp
+  obtain ⟨s', h, hd⟩ := C17_del_attr_then_use env mn p a b _ hb
+  unfold analyse
+  simp only [ld, h, FnA.bind, warned, diagsOf, hd]
+  rfl
 
 theorem C17_clause_attr_store_false : ¬ C17_clause_attr_store := by
   intro h
@@ -533,7 +651,7 @@ theorem C17_clause_rhs_before_target_false : ¬ C17_clause_rhs_before_target := 
   have := h env1 [] [[]] (S "x") (by decide) (by decide) (by decide)
   revert this; decide +kernel
 
-theorem C17_full_false : ¬ C17_full := fun h => C17_clause_del_statement_false h.1
+theorem C17_full_false : ¬ C17_full := fun h => C17_clause_attr_store_false h.2.2.1
 
 /-! ### non-vacuity of the general theorems -/
 
